@@ -13,6 +13,7 @@ BREAKSETS = [
     [0.0, 1.0, 3.0, 1e6],
     [0.1, 0.2, 0.30000000000000004, 0.9],
     [0.0, 0.25, 0.5, 0.75, 1.0],
+    [0.0, 1e-13, 1e-6, 1.0],
 ]
 
 
